@@ -72,6 +72,17 @@ def model_cases(p):
                 plain = ImageBatch(data, grids).sample(to if len(to) > 1 else to[0])
                 res.append({"val": out(r.tensor()), "plain": out(plain.tensor()), "axes": r.axes().value, "stored": st,
                             "stored_to": [G1.stored(g) for g in to], "ngrids": len(r.grids())})
+            elif k == "norm_auto":
+                # size=None: sizes inferred from the tensor shape, channels last or first
+                x = torch.tensor(c["x"], dtype=torch.float64).unsqueeze(0)              # (1, Y, X, 2)
+                fn = {"normalize_grid": PS.normalize_grid, "denormalize_grid": PS.denormalize_grid,
+                      "normalize_flow": FL.normalize_flow, "denormalize_flow": FL.denormalize_flow}[c["fn"]]
+                if c["layout"] == "first":
+                    r = fn(x.movedim(-1, 1), align_corners=c["ac"], channels_last=False).movedim(1, -1)
+                else:
+                    r = fn(x, align_corners=c["ac"], channels_last=True)
+                res.append({"val": out(r[0])})
+                continue
             elif k == "norm":
                 x = torch.tensor(c["x"], dtype=torch.float64).reshape(1, 1, -1, 1)        # one axis with n = len(x) samples
                 x = torch.cat([x, x.flip(2)], dim=-1)                                         # second axis of size 1
